@@ -43,7 +43,7 @@ def main():
         d = os.path.join("/verif/seeded", sid)
         mp = os.path.join(d, "meta.json")
         meta = json.load(open(mp))
-        sh("git checkout -q --detach %s && git checkout -- . && git clean -fdq" % head, cwd=WT)
+        sh("git reset -q --hard && git checkout -q --detach %s && git reset -q --hard %s && git clean -fdq" % (head, head), cwd=WT)
         rv = {"repo_head": head}
         rc, out = sh("git apply %s || git apply -3 %s" % (os.path.join(d, "patch.diff"), os.path.join(d, "patch.diff")), cwd=WT)
         rv["applies"] = rc == 0
@@ -53,7 +53,7 @@ def main():
             shutil.copy(os.path.join(d, "demo.rs"), path)
             rc1, out1 = sh(cmd, cwd=WT)
             rv["demo_with_patch_exit"] = rc1
-            sh("git checkout -- .", cwd=WT)
+            sh("git reset -q --hard", cwd=WT)
             rc2, out2 = sh(cmd, cwd=WT)
             rv["demo_without_patch_exit"] = rc2
             rv["manifests"] = rc1 != 0 and rc2 == 0
